@@ -90,6 +90,9 @@ type HarnessResult struct {
 	GoModes        map[string]string  `json:"go_modes,omitempty"`
 	Nondets        int                `json:"nondet_inputs"`
 	Paths          int                `json:"paths"`
+	NontrivialPaths int               `json:"nontrivial_paths"`
+	PathSamples    []any              `json:"path_samples,omitempty"`
+	Mode           string             `json:"mode"`
 	UnreachableCex int                `json:"counterexamples_from_unreachable_prestates"`
 	MaxTermNodes   int                `json:"-"`
 	ForcedBranches int                `json:"branches_with_one_feasible_side"`
@@ -183,6 +186,10 @@ func (r *Run) runHarness(ld *Loaded, fn *ssa.Function, src string) {
 	hr := &HarnessResult{Name: fn.Name(), Package: pkgRel(r.Repo, fn, ld), Params: r.Params, Reach: map[string]string{},
 		Aborts: map[string]int{}, PathEnds: map[string]int{}, Stubs: d.Stubs, Overrides: d.Overrides, GoModes: d.GoModes}
 	r.Harnesses = append(r.Harnesses, hr)
+	hr.Mode = d.Mode
+	if hr.Mode == "" {
+		hr.Mode = "merge"
+	}
 
 	// ---- translator validation: concrete runs in engine vs native build
 	if r.NConcrete > 0 && !r.NoReplay {
@@ -231,7 +238,15 @@ func (r *Run) runHarness(ld *Loaded, fn *ssa.Function, src string) {
 		if ended != "" {
 			hr.PathEnds[ended]++
 		}
+		nAssertsBefore := hr.Obligations
 		r.processPath(ld, fn, d, hr, in, solver, seenSample, knownSeen)
+		if d.Mode == "fork" && len(in.decisions) > 0 && hr.Obligations > nAssertsBefore {
+			// a path that took at least one solver-decided branch and reached an assertion
+			hr.NontrivialPaths++
+		}
+		if d.Mode == "fork" && len(hr.PathSamples) < 3 && hr.Obligations > nAssertsBefore {
+			hr.PathSamples = append(hr.PathSamples, map[string]any{"decisions": len(in.decisions), "inputs": in.pathInputs(16), "assertions": hr.Obligations - nAssertsBefore})
+		}
 		if d.Mode != "fork" {
 			break
 		}
@@ -520,6 +535,29 @@ func (in *Interp) nondetTerms() []*Term {
 	out := make([]*Term, 0, 2*len(in.nondets))
 	for _, n := range in.nondets {
 		out = append(out, n.T, n.Guard)
+	}
+	return out
+}
+
+// pathInputs lists the inputs of a path with the values the path condition pins them to (when constant).
+func (in *Interp) pathInputs(limit int) []string {
+	var out []string
+	r := in.pathR
+	for _, n := range in.nondets {
+		if n.Kind == "env" || n.Kind == "select" {
+			continue
+		}
+		v := "symbolic"
+		if r != nil {
+			if t := r.term(n.T); t.IsConst() {
+				v = fmt.Sprintf("%d", t.val)
+			}
+		}
+		out = append(out, n.Name+"="+v)
+		if len(out) >= limit {
+			out = append(out, "...")
+			break
+		}
 	}
 	return out
 }
